@@ -1698,6 +1698,18 @@ package hashgraph
 //@   ensures[root-kept]   old(__in(string(participantRootKey(p.PubKeyString())), G_raw(s.db))) && !(__called("dbGetRoot") && __lastret("dbGetRoot", 1) != nil && DbReadFault(__lastretT[error]("dbGetRoot", 1))) ==> __in(string(participantRootKey(p.PubKeyString())), G_raw(s.db)) && __seqeq(G_raw(s.db)[string(participantRootKey(p.PubKeyString()))], old(G_raw(s.db))[string(participantRootKey(p.PubKeyString()))])
 //@   ensures[others]      forall k string :: k != string(participantRootKey(p.PubKeyString())) && k != string(repertoireKey(p.PubKeyString())) ==> __in(k, G_raw(s.db)) == old(__in(k, G_raw(s.db))) && __seqeq(G_raw(s.db)[k], old(G_raw(s.db))[k])
 
+// SetPeerSet dispatch: the cache decides first (a refused set never reaches the database), the validator-set record is
+// written unless in maintenance mode, and extending the repertoire afterwards does not disturb it.
+//@ func (s *BadgerStore) SetPeerSet(round int, peerSet *peers.PeerSet) error
+//@   requires s != nil && s.inmemStore != nil && s.db != nil && peerSet != nil && (forall i int :: 0 <= i && i < len(peerSet.Peers) ==> peerSet.Peers[i] != nil)
+//@   call addParticipant assume[key-spaces] string(peerSetKey(round)) != string(participantRootKey(p.PubKeyString())) && string(peerSetKey(round)) != string(repertoireKey(p.PubKeyString()))
+//@   call dbSetPeerSet assert[cache-first] __called("SetPeerSet") && __lastret("SetPeerSet", 0) == nil && !s.maintenanceMode && __arg(0) == round && __arg(1) == peerSet
+//@   ensures[maintenance]   s.maintenanceMode ==> __eq(G_raw(s.db), old(G_raw(s.db)))
+//@   ensures[cache-refused] !__called("dbSetPeerSet") && !__called("addParticipant") ==> __eq(G_raw(s.db), old(G_raw(s.db)))
+//@   ensures[written]       ret0 == nil && !s.maintenanceMode ==> __in(string(peerSetKey(round)), G_raw(s.db))
+//@   loop 1 invariant[record] !s.maintenanceMode ==> __in(string(peerSetKey(round)), G_raw(s.db))
+//@   loop 1 invariant[maintenance] s.maintenanceMode ==> __eq(G_raw(s.db), old(G_raw(s.db)))
+
 //@ func (s *InmemStore) RepertoireByID() map[uint32]*peers.Peer
 //@   implements Store.RepertoireByID
 //@   safety on
